@@ -296,8 +296,86 @@ def run(run):
     run.bounds.update({'series order': 'eps^1 t^1', 'directions': '9 (7) error states + 6 sensor-error directions x 15 state components, both altitude modes'})
 
 
+def defect_oracle(pva, w, f, wa, k, pt=None):
+    """The eps^1 dt^1 coefficient of  correct_pva(INS(dt), eps x(dt)) - truth(dt)  measured on the
+    compiled integrator: central difference in eps (removes eps^2), two Richardson stages in dt
+    over single steps of dt, dt/2, dt/4 (remove dt^2 and dt^3).  The documented neglected term
+    ((Omega x phi) x V in the velocity rows of the attitude columns) is subtracted; position
+    columns carry the documented velocity-proportional allowance.  Returns per output row the
+    defect, the tolerance (rounding noise of the state representation + truncation) and ratio."""
+    import numpy as np
+    import pandas as pd
+    from pyins import error_model, transform, strapdown, earth
+    em = error_model.InsErrorModel(wa)
+    n = em.n_states
+    names = direction_names(n)
+    kind = names[k][:2]
+    F, Bg, Ba = em.system_matrices(pva)
+    x0 = np.zeros(n)
+    dw = np.zeros(3)
+    df = np.zeros(3)
+    if k < n:
+        x0[k] = 1.0
+    elif k < n + 3:
+        dw[k - n] = 1.0
+    else:
+        df[k - n - 3] = 1.0
+    xdot = F @ x0 + Bg @ dw + Ba @ df
+    scale = np.array([1, 1, 1, 1, 1, 1, 180 / np.pi, 180 / np.pi, 180 / np.pi])
+
+    def run_(p0, ww, ff, dt):
+        inc = pd.DataFrame([np.hstack([[dt], ww * dt, ff * dt])], index=[dt], columns=['dt', 'theta_x', 'theta_y', 'theta_z', 'dv_x', 'dv_y', 'dv_z'])
+        it = strapdown.Integrator(p0, wa)
+        it.integrate(inc)
+        return it.get_pva()
+
+    def g(eps, dt):
+        ins0 = em.correct_pva(pva, -eps * x0)
+        ins0.name = 0.0
+        tr = run_(pva, w, f, dt)
+        ins = run_(ins0, w + eps * dw, f + eps * df, dt)
+        corr = em.correct_pva(ins, eps * (x0 + dt * xdot))
+        return transform.compute_state_difference(corr, tr).values / scale
+    eps = {'DR': 100.0, 'DV': 0.1, 'PH': 1e-3, 'gy': 1e-3, 'ac': 1e-1}[kind]
+    dt = 2e-2
+    gc = lambda h: (g(eps, h) - g(-eps, h)) / (2 * eps)
+    A1 = lambda h: (4 * gc(h / 2) - gc(h)) / h
+    a1, a1h = A1(dt), A1(dt / 2)
+    a = (4 * a1h - a1) / 3
+    V = pva[['VN', 'VE', 'VD']].values.astype(float)
+    speed = float(np.linalg.norm(V))
+    neglected = np.zeros(9)
+    if kind == 'PH':
+        phi3 = (em._transform_3d_2d(pva.VN, pva.VE) @ x0 if not wa else x0)[6:9]
+        neglected[3:6] = np.cross(np.cross(earth.rate_n(pva.lat), phi3), V)
+        if not wa:
+            neglected[5] = 0.0
+    d = a - neglected
+    tanl = abs(np.tan(np.radians(pva.lat)))
+    sec_p = 1 / max(np.cos(np.radians(pva.pitch)), 0.05)
+    noise = np.array([2e-8] * 3 + [1e-12 * max(1.0, speed / 10)] * 3 + [4e-14 * sec_p] * 3) * 45 / (eps * dt)
+    x3 = (em._transform_3d_2d(pva.VN, pva.VE) @ xdot) if not wa else xdot
+    rowscale = np.abs(np.hstack([x3[0:3], x3[3:6], x3[6:9]]))
+    blocks = np.array([rowscale[0:3].max()] * 3 + [rowscale[3:6].max()] * 3 + [rowscale[6:9].max()] * 3)
+    tol = noise + 1e-5 * blocks + 1e-12
+    if k >= n:
+        wn = float(np.linalg.norm(w))
+        tol = tol + (1e-4 + (wn * dt) ** 3) * max(np.abs(xdot).max(), 1e-9) * 10
+    if kind == 'DR':
+        # position-error columns: exact at V = 0 except d(gravity)/d(latitude) (<= 2e-7 1/s^2); for
+        # V != 0 the model neglects d(transport rate)/d(position) and the rotation of the position
+        # error with the frame: per metre of position error |V|/R (1 + |tan lat|) in the position
+        # rows, (|V|/R)(|V|/R + 2 Omega)(1 + tan^2) in the velocity rows, (|V|/R)/R (1 + tan^2) in
+        # the attitude rows
+        sr = speed / 6.3e6
+        t2 = 1 + tanl ** 2
+        tol = tol + np.array([3 * sr * (1 + tanl)] * 3 + [6e-7 + 3 * sr * (sr + 1.5e-4) * t2] * 3 + [8 * sr / 6.3e6 * t2 + 1e-12] * 3)
+    return {'name': names[k], 'defect': d.tolist(), 'tol': tol.tolist(), 'neglected': neglected.tolist(), 'ratio': (np.abs(d) / tol).tolist(), 'a': a.tolist(),
+            'richardson_gap': np.abs(a - a1h).tolist()}
+
+
 def replay(spec):
-    """numeric oracle: finite-difference sensitivity of the compiled integrator vs the model"""
+    """numeric oracle: the defect coefficient measured on the compiled integrator vs the model"""
     import numpy as np
     import pandas as pd
     from pyins import error_model, transform, strapdown, earth
@@ -338,52 +416,10 @@ def replay(spec):
             fails.append('propagate_errors: one step != x0 + dt (F x0 + B u)')
         return {'violated': bool(fails), 'detail': fails}
     k = pr.get('dir', 0)
-    F, Bg, Ba = em.system_matrices(pva)
-    x0 = np.zeros(n)
-    dw = np.zeros(3)
-    df = np.zeros(3)
-    if k < n:
-        x0[k] = 1.0
-    elif k < n + 3:
-        dw[k - n] = 1.0
-    else:
-        df[k - n - 3] = 1.0
-    xdot = F @ x0 + Bg @ dw + Ba @ df
-
-    def run_(p0, ww, ff, dt):
-        inc = pd.DataFrame([np.hstack([[dt], ww * dt, ff * dt])], index=[dt], columns=['dt', 'theta_x', 'theta_y', 'theta_z', 'dv_x', 'dv_y', 'dv_z'])
-        it = strapdown.Integrator(p0, wa)
-        it.integrate(inc)
-        return it.get_pva()
-    scale = np.array([1, 1, 1, 1, 1, 1, 57.3, 57.3, 57.3])
-    best = None
-    # error sizes per kind of direction: large enough that rounding of lat/lon (1e-9 m) divided by
-    # eps*dt stays below the tolerance, small enough that second-order effects are negligible
-    names = direction_names(n)
-    kind = names[k][:2]
-    sizes = {'DR': (100.0, 10.0), 'DV': (1e-1, 1e-2), 'PH': (1e-3, 1e-4), 'gy': (1e-4, 1e-5), 'ac': (1e-2, 1e-3)}[kind]
-    for eps, dt in ((sizes[0], 1e-2), (sizes[1], 1e-2)):
-        # INS initial state: the one whose correction by eps x0 is the truth: correct(ins0, eps x0) = pva
-        ins0 = em.correct_pva(pva, -eps * x0)
-        ins0.name = 0.0
-        tr = run_(pva, w, f, dt)
-        ins = run_(ins0, w + eps * dw, f + eps * df, dt)
-        xt = eps * (x0 + dt * xdot)
-        corr = em.correct_pva(ins, xt)
-        d = transform.compute_state_difference(corr, tr).values / scale / (eps * dt)
-        d0 = transform.compute_state_difference(em.correct_pva(ins0, eps * x0), pva).values / scale / (eps * dt)
-        val = np.abs(d - d0).max()
-        best = val if best is None else min(best, val)
-    # the documented neglected terms are below 1e-3 of the retained ones per unit error; a wrong retained term is O(1e-5..1)
-    ref = max(np.abs(xdot).max(), 1e-6)
-    if kind == 'DR':
-        # position-error columns: exact at V = 0 except d(gravity)/d(latitude) (<= 2e-7 1/s^2); for
-        # V != 0 the model neglects d(transport rate)/d(position) and the rotation of the position
-        # error with the frame, of size |V|/R (1 + |tan lat|) per metre per second
-        speed = float(np.linalg.norm(pva[['VN', 'VE', 'VD']].values))
-        tol = 6e-7 + 3 * speed / 6.3e6 * (1 + abs(np.tan(np.radians(pva.lat))))
-    else:
-        tol = max(2e-2 * ref, 2e-2)
-    if best > tol and (k >= n or k >= 3 or True):
-        fails.append('direction %d: corrected INS state departs from the truth at rate %.3g per unit error (model rate scale %.3g): the model column is not the linearisation of the integrator' % (k, best, ref))
+    res = defect_oracle(pva, w, f, wa, k, pt)
+    worst = max(res['ratio'])
+    if worst > 1:
+        i = int(np.argmax(res['ratio']))
+        fails.append('direction %d (%s): the eps^1 dt^1 defect of the corrected INS state, row %s, is %.3g (tolerance %.3g; documented neglected term %.3g already removed): the model column is not the linearisation of the integrator'
+                     % (k, res['name'], ['north', 'east', 'down', 'VN', 'VE', 'VD', 'roll', 'pitch', 'heading'][i], res['defect'][i], res['tol'][i], res['neglected'][i]))
     return {'violated': bool(fails), 'detail': fails}
